@@ -9,7 +9,7 @@ Line protocol of ssv_c14 (one answer line per input line):
   snap | reset                                 -> T=<6 values> U=<name>:<6 values>;…   (Snapshot / SnapshotAndReset)
   stats <n> <v1> … <vn>                        -> 200 <json pairs sorted by key> users=[username=<name>,<pairs>;…]
                                                   (n `clear` query values, "E" = the empty string)
-  user <name>                                  -> 404 | 200 username=<name> <json pairs sorted by key>
+  user <name | ->                              -> 404 | 200 username=<name> <json pairs sorted by key>
 -/
 
 structure DState where
@@ -65,7 +65,8 @@ def stepC14 (st : DState) (line : String) : DState × String :=
       let (sh, r) := apiStats st.sh (vs.map (fun v => if v == "E" then "" else v))
       ({ st with sh := compact sh }, showStats r)
     else (st, "bad-op")
-  | ["user", u] =>
+  | ["user", u0] =>
+    let u := uname u0
     match apiUser st.sh (st.creds.contains u) u with
     | some c => (st, s!"200 {usernameJSONName}={u} {jsonPairs c}")
     | none => (st, "404")
